@@ -16,7 +16,8 @@ THEOREMS = ["Yaw.C18.requests_cover_once", "Yaw.C18.requests_bounded", "Yaw.C18.
 RULE = ("instrumented data-frame-like source (logs every slice and every whole-column access) fed to "
         "Catalog.from_dataframe for lengths n in {k*c-1, k*c, k*c+1, < c, 1} x chunk sizes 1..n+2 x patch modes "
         "(centres, index column, generated centres = 2 passes); the slice log is compared EXACTLY with the Lean "
-        "reader model per pass; FITS/HDF5/Parquet readers: chunk lengths per pass compared with the model. "
+        "reader model per pass; FITS/HDF5/Parquet readers: chunk lengths and row content per pass compared with the model, "
+        "Parquet row-group requests (shortest prefix covering the rows handed out, each group once per pass). "
         "non-trivial: more than one chunk; distinct by (source, n, c, mode)")
 
 
@@ -113,6 +114,9 @@ def run(prop, tier, seed, replay):
             for fi in range(n_cases // 3):
                 c = rng.choice([1, 3, 4, 7])
                 n = max(1, rng.choice([1, 2, 3]) * c + rng.choice([-1, 0, 1]))
+                if (fi // 3) % 2 == 0:      # stratum, every format: several chunks and a partial last one
+                    c = rng.choice([3, 4, 7])
+                    n = rng.choice([2, 3]) * c + rng.choice([1, c - 1])
                 nprng = np.random.default_rng(rng.randrange(2 ** 32))
                 ra, dec = nprng.uniform(0, 1, n), nprng.uniform(0, 1, n)
                 fmt = ["fits", "hdf5", "parquet"][fi % 3]
@@ -135,12 +139,47 @@ def run(prop, tier, seed, replay):
                                 first = False
                                 wr.write_table(tab.slice(at, k))
                                 at += k
-                lens = []
-                with new_filereader(path, ra_name="ra", dec_name="dec", chunksize=c) as reader:
-                    for _ in range(2):                       # two passes over the same reader
-                        lens.append([len(ch) for ch in reader])
+                lens, rows_ok, lazy_bad = [], True, None
+                group_sizes, requested = None, []
+                orig_read = pq.ParquetFile.read_row_group
+                if fmt == "parquet":
+                    md = pq.ParquetFile(path).metadata
+                    group_sizes = [md.row_group(i).num_rows for i in range(md.num_row_groups)]
+
+                    def logged_read(self_, i, *a, **k):
+                        out = orig_read(self_, i, *a, **k)
+                        requested.append(i)
+                        return out
+                    pq.ParquetFile.read_row_group = logged_read
+                try:
+                    with new_filereader(path, ra_name="ra", dec_name="dec", chunksize=c) as reader:
+                        for _ in range(2):                       # two passes over the same reader
+                            requested.clear()
+                            chunks, handed = [], 0
+                            for ch in reader:
+                                chunks.append(ch)
+                                handed += len(ch)
+                                if group_sizes is not None and lazy_bad is None:
+                                    # bounded + non-overlapping: the row groups requested so far are exactly the shortest
+                                    # prefix of the file that covers the records handed out, each requested once
+                                    need = int(np.searchsorted(np.cumsum(group_sizes), handed, side="left")) + 1
+                                    need = min(need, len(group_sizes))
+                                    if sorted(requested) != list(range(len(requested))) or len(requested) > need:
+                                        lazy_bad = (f"after {handed} of {n} records were handed out, row groups {requested} had "
+                                                    f"been requested; the first {need} of sizes {group_sizes} suffice")
+                            lens.append([len(ch) for ch in chunks])
+                            got = np.concatenate([np.asarray(ch["ra"]) for ch in chunks]) if chunks else np.empty(0)
+                            rows_ok = rows_ok and np.array_equal(got, np.deg2rad(ra))
+                finally:
+                    pq.ParquetFile.read_row_group = orig_read
                 path.unlink()
                 rep = {"format": fmt, "n": n, "chunksize": c}
+                if lazy_bad:
+                    ck.add_violation(f"parquet reader with chunk size {c} reads ahead without bound: {lazy_bad}",
+                                     dict(rep, row_groups=group_sizes))
+                if not rows_ok:
+                    ck.add_violation(f"{fmt} reader with chunk size {c}: the rows of a pass are not the {n} rows of the file "
+                                     f"in order (chunk lengths {lens})", rep)
                 ck.count(f"format={fmt}")
                 ck.case(dict(rep, lens=lens[0]) if len(ck.samples) < 6 else None, (fmt, n, c) if n > c else None)
                 reqs.append(f"f{fi} requests {n} {c}")
